@@ -15,8 +15,9 @@ CLAIMED = {
                 "report's at the unique exact solution of Kepler's equation (C01_answered_position_accuracy*), via a compositional Lipschitz calculus (310000 km/rad, "
                 '460 (km/s)/rad) and a convergence proof of the loop regenerated from source: the iterates are the second-order step, the first-step clamp is inactive,'
                 ' each step squares the error (Taylor remainder by a monotone comparison function + MVT), the sixth stopping test cannot fail, so the unchecked '
-                'eleventh exit is unreachable (C01_newton_*). PARTIAL: binary64 rounding, and convergence for eL^2 > 4/25, are sampled: implementation vs an '
-                'independent evaluation of the report (worst 0.011 mm) and the AIAA vectors',
+                'eleventh exit is unreachable (C01_newton_*). A healthy orbit is proved to be answered and the ISS set at epoch is proved to meet every hypothesis (no '
+                'vacuous theorem). PARTIAL: binary64 rounding, and convergence for eL^2 > 4/25, are sampled: implementation vs an independent evaluation of the report '
+                '(worst 0.011 mm) and the AIAA vectors',
         "design_ref": 'DESIGN.md 5/C01',
         "note": 'trusted: Coq kernel, stdlib real axioms (+ Uint63/float primitives via Interval in the example), translator (self-checked each run on outcome class '
                 'and state), Spec_SGP4.v transcription (cross-checked by the Gen=Spec proofs: a slip in D4 was caught that way). Known finding C01:aiaa:29141 (decaying'
@@ -166,7 +167,9 @@ CLAIMED = {
                 ' the element-range guards fail, NotImplementedError exactly for in-range elements with period >= 225 min, simplified mode exactly for perigee < 220 km'
                 ' and propagate refuses that mode, near-earth-normal otherwise; the outcome is a total function of the elements; every returned state has passed the '
                 'decay guards and each decayed condition ends in an exception; on a returned state every denominator and sqrt argument of the propagation stage is '
-                "positive (real-number half of 'never NaN'). PARTIAL: constructor denominators and binary64 overflow are sampled over the printable range of every "
+                "positive (real-number half of 'never NaN'); conversely an orbit that is not decaying IS answered (decay guards at the requested time, eL^2 <= 4/25, "
+                'osculating perigee >= 1.005 earth radii imply a returned state, via the convergence proof of the Kepler loop and rk >= 1: C13_healthy_is_answered*). '
+                "PARTIAL: 'a state is returned' outside that regime, constructor denominators and binary64 overflow are sampled over the printable range of every "
                 'field, incl. the accepted high-eccentricity island',
         "design_ref": 'DESIGN.md 5/C13',
         "note": "trusted: Coq kernel, stdlib real axioms, translator (self-checked each run on every outcome class); guard thresholds are tied to the report's "
